@@ -45,6 +45,43 @@ def _listlike(e):
 PREFIX_FIELDS = ['linear', 'const', 'sense', 'vtype', 'ub', 'lb', 'obj', 'qmat']
 
 
+
+def _linform(e, env=None, depth=0):
+    """integer-linear form of an index expression over names: {(): constant, ('d',): coefficient, ...} or None.
+    env maps a name to an expression it stands for (single-definition locals)."""
+    env = env or {}
+    if isinstance(e, ast.Constant) and isinstance(e.value, (int, float)) and not isinstance(e.value, bool):
+        return {(): e.value}
+    if isinstance(e, ast.Name):
+        if e.id in env and depth < 4:
+            return _linform(env[e.id], env, depth + 1)
+        return {(e.id,): 1}
+    if isinstance(e, ast.UnaryOp) and isinstance(e.op, ast.USub):
+        a = _linform(e.operand, env, depth)
+        return None if a is None else {k: -v for k, v in a.items()}
+    if isinstance(e, ast.BinOp) and isinstance(e.op, (ast.Add, ast.Sub)):
+        a, b = _linform(e.left, env, depth), _linform(e.right, env, depth)
+        if a is None or b is None:
+            return None
+        out = dict(a)
+        for k, v in b.items():
+            out[k] = out.get(k, 0) + (v if isinstance(e.op, ast.Add) else -v)
+        return {k: v for k, v in out.items() if v != 0}
+    if isinstance(e, ast.BinOp) and isinstance(e.op, ast.Mult):
+        a, b = _linform(e.left, env, depth), _linform(e.right, env, depth)
+        if a is None or b is None:
+            return None
+        out = {}
+        for k1, v1 in a.items():
+            for k2, v2 in b.items():
+                k = tuple(sorted(k1 + k2))
+                out[k] = out.get(k, 0) + v1 * v2
+        return {k: v for k, v in out.items() if v != 0}
+    if isinstance(e, ast.Attribute):
+        return {(ntext(e),): 1}
+    return None
+
+
 def run(repo):
     res = RuleResult(RULE, 'SOC approximation leaves the rest alone', TEXT)
     res.floor = 12
@@ -195,15 +232,27 @@ def run(repo):
         raise AnalysisError('to_socp: the lower bounds appended per exponential cone were not found')
     covered = False
     near = []
+    unknown0 = []
     for loop in [n for n in walk_no_nested(fi.node) if isinstance(n, ast.For)]:
         for st_ in loop.body:
             if isinstance(st_, ast.Assign) and isinstance(st_.targets[0], ast.Subscript) and \
                     ntext(st_.targets[0].value) == ext and isinstance(st_.value, ast.Constant) and st_.value.value == 0:
                 idx = st_.targets[0].slice
-                ok_i = pmatch('%s + _d * %s + %s' % (b['_base'][1], b['_str'][1], b['_h'][1]), idx)
-                if ok_i[0] == 'match' and isinstance(loop.target, ast.Name) and ok_i[1]['_d'][1] == loop.target.id and \
-                        pmatch('range(%s)' % b['_n'][1], loop.iter)[0] == 'match':
+                # base + d*stride + head, in any arrangement of the sum / product, with temporaries read through
+                from .common import single_defs as _sd22
+                env22 = {k_: v_ for k_, v_ in _sd22(fi.node).items()
+                         if k_ not in (b['_base'][1], ) and isinstance(loop.target, ast.Name) and k_ != loop.target.id}
+                dv = loop.target.id if isinstance(loop.target, ast.Name) else None
+                got = _linform(idx, env22)
+                want = _linform(ast.parse('%s + %s * %s + %s' % (b['_base'][1], dv or '_', b['_str'][1], b['_h'][1]),
+                                          mode='eval').body, env22) if dv else None
+                rng_ok = isinstance(loop.iter, ast.Call) and call_name(loop.iter) == 'range' and len(loop.iter.args) == 1 \
+                    and _linform(loop.iter.args[0], env22) is not None and \
+                    _linform(loop.iter.args[0], env22) == _linform(ast.parse(b['_n'][1], mode='eval').body, env22)
+                if got is not None and want is not None and got == want and rng_ok:
                     covered = True
+                elif got is None or want is None:
+                    unknown0.append(ntext(st_)[:60])
                 else:
                     near.append(ntext(st_)[:50] + ' in `for %s in %s`' % (ntext(loop.target), ntext(loop.iter)[:30]))
     # the vectorised spellings:  ext[base + h::stride] = 0   /   ext[base + h + stride * np.arange(n)] = 0
@@ -215,10 +264,12 @@ def run(repo):
             continue
         idx = st_.targets[0].slice
         if isinstance(idx, ast.Slice):
-            lo_ok = idx.lower is not None and ntext(idx.lower).replace(' ', '') in (
-                ('%s+%s' % (base_t, h_t)).replace(' ', ''), ('%s+%s' % (h_t, base_t)).replace(' ', ''))
+            lo_ok = idx.lower is not None and _linform(idx.lower) is not None and \
+                _linform(idx.lower) == _linform(ast.parse('%s + %s' % (base_t, h_t), mode='eval').body)
             if lo_ok and idx.upper is None and idx.step is not None and ntext(idx.step) == str_t:
                 covered = True              # every head from the first one to the end of the block
+            elif lo_ok and idx.step is not None and ntext(idx.step) == str_t:
+                unknown.append(ntext(st_)[:60])       # an explicit upper end: whether it reaches the last head is not decided
             elif base_t in ntext(idx):
                 near.append(ntext(st_)[:50])
         elif base_t in ntext(idx) and 'arange' in ntext(idx):
@@ -229,6 +280,21 @@ def run(repo):
                 covered = True
             else:
                 unknown.append(ntext(st_)[:60])
+    # an index vector built first (heads = base + 2 + 3 * np.arange(n); ext[heads] = 0) or merged into another store
+    for st_ in walk_no_nested(fi.node):
+        if isinstance(st_, ast.Assign) and isinstance(st_.targets[0], ast.Subscript) and \
+                ntext(st_.targets[0].value) == ext and isinstance(st_.value, ast.Constant) and st_.value.value == 0 and \
+                not covered:
+            from .common import expand_locals as _xl22
+            it = ntext(_xl22(fi.node, st_.targets[0].slice))
+            if 'arange' in it and base_t in it and st_.targets[0].slice is not None and \
+                    ntext(st_.targets[0].slice) != it:
+                unknown.append(ntext(st_)[:60])
+            elif any(isinstance(x_, ast.Name) and x_.id not in (base_t,) and
+                     any(base_t in ntext(d_) and ('range' in ntext(d_) or 'arange' in ntext(d_))
+                         for d_ in defs.get(x_.id, [])) for x_ in ast.walk(st_.targets[0].slice)):
+                unknown.append(ntext(st_)[:60])
+    unknown += unknown0
     if not covered and unknown and not near:
         raise AnalysisError('to_socp: the lower bounds of the added cones are set by `%s`, a form the rule does not '
                             'interpret' % unknown[0])
